@@ -202,8 +202,32 @@ class Run:
         return {'key': key, 'props': props, 'fn': fname, 'msg': msg, 'clause': clause, 'where': where,
                 'src': srctext, 'rendered': d.get('rendered', '')}
 
+    def scan_assumptions(self):
+        """mechanical scan of everything that is assumed rather than proved in overlays and prelude"""
+        import glob
+        out = {'assume_specification': [], 'external_body_axioms': [], 'uninterp_spec_fns': [], 'assume_or_admit': []}
+        files = sorted(glob.glob(os.path.join(VERIF, 'contracts', '*.vspec')) + glob.glob(os.path.join(VERIF, 'verus', '*.rs')))
+        for f in files:
+            txt = open(f).read()
+            rel = os.path.relpath(f, VERIF)
+            for m in re.finditer(r'assume_specification\s*(?:<[^\[]*>)?\s*\[\s*([^\]]+?)\s*\]', txt):
+                out['assume_specification'].append(re.sub(r'\s+', '', m.group(1)))
+            for m in re.finditer(r'#\[verifier::external_body\]\s*(?:pub\s+)?(?:broadcast\s+)?proof fn (\w+)', txt):
+                out['external_body_axioms'].append(f'{rel}:{m.group(1)}')
+            for m in re.finditer(r'uninterp spec fn (\w+)', txt):
+                out['uninterp_spec_fns'].append(f'{rel}:{m.group(1)}')
+            for ln, line in enumerate(txt.split('\n'), 1):
+                code = line.split('//')[0]
+                if re.search(r'(?<![A-Za-z_])(assume|admit)\s*\(', code) and 'assume_specification' not in code:
+                    out['assume_or_admit'].append(f'{rel}:{ln}')
+        return out
+
     def verus_unit(self):
         w = self.weave()
+        scan = self.scan_assumptions()
+        self.extra['assumption_scan'] = scan
+        if scan['assume_or_admit']:
+            raise Undecided('assume()/admit() found in the contracts: ' + ', '.join(scan['assume_or_admit']))
         cone = self.cone()
         item_mods = set()
         for rel, ov in w.overlays.items():
